@@ -119,22 +119,31 @@ def check_assets(world, tree, props, order, paths, given=True, empty_simfile=Fal
         if res[0] != "ok":
             fails.append({"clause": "Assets(...) raised", "expected": "asset loader", "observed": res, **tag})
             continue
-        a = res[1]
-        for kind in kinds:
-            want = {norm(fsname, join(fsname, base, *parts)) for parts in MA.acceptable(kind, props.get(PROP_OF[kind]), mt)}
-            r1 = core.outcome_of(lambda: getattr(a, ATTR_OF[kind]))
-            if r1[0] != "ok":
-                fails.append({"clause": "asset lookup raised", "expected": sorted(want) or None, "observed": r1, "kind": kind, **tag})
-                continue
-            got = r1[1]
-            if (got is None) != (not want) or (got is not None and norm(fsname, got) not in want):
-                fails.append({"clause": "asset answer is not the named file (case-insensitive) / a pattern match / None", "expected": sorted(want) or None, "observed": got, "kind": kind, **tag})
-                continue
-            if got is not None and (not exists(fsname, fsobj, got) or got != norm(fsname, got)):
-                fails.append({"clause": "asset answer is not an existing, normalized path", "expected": "existing normalized path", "observed": got, "kind": kind, **tag})
-            r2 = core.outcome_of(lambda: getattr(a, ATTR_OF[kind]))
-            if r2 != r1:
-                fails.append({"clause": "asking again returns a different answer", "expected": r1, "observed": r2, "kind": kind, **tag})
+        loaders = [("Assets", res[1])]
+        if not given:
+            # the same loader obtained through SimfileDirectory.assets()
+            from simfile.dir import SimfileDirectory
+            r2 = core.outcome_of(lambda: SimfileDirectory(base, filesystem=fsobj).assets())
+            if r2[0] != "ok":
+                fails.append({"clause": "SimfileDirectory.assets() raised", "expected": "asset loader", "observed": r2, **tag})
+            else:
+                loaders.append(("SimfileDirectory.assets()", r2[1]))
+        for lname, a in loaders:
+          for kind in kinds:
+              want = {norm(fsname, join(fsname, base, *parts)) for parts in MA.acceptable(kind, props.get(PROP_OF[kind]), mt)}
+              r1 = core.outcome_of(lambda: getattr(a, ATTR_OF[kind]))
+              if r1[0] != "ok":
+                  fails.append({"clause": "asset lookup raised", "expected": sorted(want) or None, "observed": r1, "kind": kind, **tag})
+                  continue
+              got = r1[1]
+              if (got is None) != (not want) or (got is not None and norm(fsname, got) not in want):
+                  fails.append({"clause": "asset answer is not the named file (case-insensitive) / a pattern match / None", "expected": sorted(want) or None, "observed": got, "kind": kind, **tag})
+                  continue
+              if got is not None and (not exists(fsname, fsobj, got) or got != norm(fsname, got)):
+                  fails.append({"clause": "asset answer is not an existing, normalized path", "expected": "existing normalized path", "observed": got, "kind": kind, **tag})
+              r2 = core.outcome_of(lambda: getattr(a, ATTR_OF[kind]))
+              if r2 != r1:
+                  fails.append({"clause": "asking again returns a different answer", "expected": r1, "observed": r2, "kind": kind, **tag})
     return fails
 
 
